@@ -897,6 +897,34 @@ fn build_domain(items: &[Item], chosen: &BTreeMap<usize, String>, feats: &[Strin
                 args_bearing: false,
             });
         }
+        // identifier enums generated for models whose FIELD types are not thread-safe: the identifiers are names only.
+        // The model is declared on the assertion line itself, so a diagnostic from the macro expansion is attributed to this entry.
+        for (name, decl, iden) in [
+            (
+                "user-inline::enum_def<model with Rc / Cell fields>",
+                "#[sea_query::enum_def] pub struct Sess { pub a: std::rc::Rc<str>, pub b: std::cell::Cell<u32>, pub c: *const u8 }",
+                "SessIden",
+            ),
+            (
+                "user-inline::enum_def<model with a boxed trait object>",
+                "#[sea_query::enum_def(prefix = \"\", suffix = \"Col\")] pub struct Job { pub id: i32, pub run: Box<dyn Fn()> }",
+                "JobCol",
+            ),
+            (
+                "user-inline::derive(Iden)<enum with renames and a method>",
+                "#[derive(sea_query::Iden)] pub enum Tbl { Table, #[iden = \"a\"] A, #[method = \"m\"] B } impl Tbl { fn m(&self) -> &'static str { \"b\" } }",
+                "Tbl",
+            ),
+        ] {
+            entries.push(Entry {
+                name: name.to_string(),
+                class: "user".into(),
+                send: format!("{{ {decl} _send::<{iden}>(); _sync::<{iden}>(); let i: sea_query::DynIden = sea_query::SeaRc::new(_mk::<{iden}>()); _send_val(move || i.to_string()); }}"),
+                sync: None,
+                about: vec![],
+                args_bearing: false,
+            });
+        }
         entries.push(Entry {
             name: "spawn-closure<SeaRc::new(user::Glyph)>".into(),
             class: "user".into(),
